@@ -674,9 +674,14 @@ def dc_near(spec) -> t.List[t.Any]:
         # kind - alone and next to another field that fails: "as if it had been left out" is not what giving it means
         df = f.get('default')
         if df and df[0] == 'value':
-            dv = eval(df[1], {})  # noqa: S307 - the spec's own literal
+            try:
+                dv = values.eval_expr(df[1])
+            except Exception:  # noqa: a default that is not a plain literal
+                continue
             key = classes_gen.input_names(f, opts)[0][0]
             for cand in [dv] + ([values._twin(dv)] if values._twin(dv) is not None else []):
+                if not values.is_interchange(cand):
+                    continue            # (a default written as a typed value - an enum member, a Fraction - is not data)
                 out.append({**full, key: cand})
                 for g in fields:
                     if g is not f:
